@@ -1,0 +1,7 @@
+//go:build !verif
+
+package component_definition
+
+func verifOrderProperties(m *Meta, props []*Property) []*Property {
+	return props
+}
